@@ -1,2 +1,60 @@
-From BFS Require Import Layers.Call Layers.HiddenList.
-Example placeholder_C11 : is_hidden [47; 104] [[47; 104]] = Some true. Proof. reflexivity. Qed.
+(** C11 — HiddenFS listings respect hidden paths; no relocation by renaming an
+    ancestor (lexical part).  RemoveAll on real trees: see Props/C11 world part. *)
+From BFS Require Import Layers.Call Layers.LayerSpec Layers.HiddenList.
+From BFS Require Import Proofs.HiddenFacts Proofs.HiddenListFacts.
+
+(** the entries HiddenFS should show, in directory order *)
+Definition visible (dirp : str) (hs : list str) (content : list str) : list str :=
+  filter (fun e => match is_hidden (join2 dirp e) hs with Some false => true | _ => false end) content.
+
+(** names delivered by a sequence of listing calls, up to and including the
+    first EOF / empty answer *)
+Fixpoint collected (rs : list lres) : list str :=
+  match rs with
+  | [] => []
+  | LOk [] :: _ => []
+  | LOk l :: r => l ++ collected r
+  | LEof l :: _ => l
+  | LErr :: _ => []
+  end.
+
+Definition ended (rs : list lres) : Prop :=
+  Exists (fun r => match r with LEof _ | LOk [] => True | _ => False end) rs.
+
+(** For every directory content, every hidden set whose checks are defined on
+    the entries, every sequence of counts (negative, zero, positive, any
+    batching): no call fails, what is delivered is a prefix of exactly the
+    non-hidden entries in order (each once), and it is all of them as soon as
+    the listing has ended; a call with n <= 0 delivers everything at once. *)
+Theorem C11_listing :
+  forall dirp hs content counts,
+  (forall e, In e content -> is_hidden (join2 dirp e) hs <> None) ->
+  let rs := hidden_list_calls dirp hs counts content in
+  Forall (fun r => r <> LErr) rs /\
+  (exists k, collected rs = firstn k (visible dirp hs content)) /\
+  (ended rs -> collected rs = visible dirp hs content) /\
+  (forall c cs, counts = c :: cs -> (c <= 0)%Z -> hd LErr rs = LOk (visible dirp hs content)).
+Proof. exact hidden_listing. Qed.
+Print Assumptions C11_listing.
+
+(** the visible entries are exactly the non-hidden ones *)
+Theorem C11_visible_spec :
+  forall dirp hs content e, Forall cleaned hs ->
+  (forall x, In x content -> comparable hs (join2 dirp x)) ->
+  (In e (visible dirp hs content) <-> In e content /\ ~ below hs (join2 dirp e)).
+Proof. exact visible_spec. Qed.
+Print Assumptions C11_visible_spec.
+
+(** no operation relocates hidden content by renaming one of its ancestors *)
+Theorem C11_no_relocation_lexical :
+  forall hs a b aux, Forall cleaned hs -> comparable hs a -> comparable hs b ->
+  above_hidden hs a ->
+  exists e, hiddenfs_call hs (mkCall MRename a b aux) = Rej e.
+Proof. exact hiddenfs_rename_ancestor_rejected. Qed.
+Print Assumptions C11_no_relocation_lexical.
+
+Example C11_example :
+  (* dir "/var", hidden "/var/b", content ["b"; "b2"; "a"], counts [1; 1; 1] *)
+  hidden_list_calls [47;118;97;114] [[47;118;97;114;47;98]] [1%Z; 1%Z; 1%Z] [[98]; [98;50]; [97]]
+  = [LOk [[98;50]]; LOk [[97]]; LEof []].
+Proof. vm_compute. reflexivity. Qed.
